@@ -7,11 +7,12 @@ import traceback
 
 
 def registry():
-    from .props import static
+    from .props import c06, static
 
     reg = {}
     for p in ("C01", "C02", "C07"):
         reg[p] = static.run
+    reg["C06"] = c06.run
     return reg
 
 
